@@ -343,6 +343,9 @@ def run(pid: str, tier: str, seed: int, *, replay: dict | None = None) -> int:
             print(f"... and {len(unexplained) - 25} more rejected runs")
     if replay is None:
         selftest(ck, traces, v)
+        if pid == "C11":
+            from checks import router_part
+            router_part.run_part(ck, tier, rng)
     return ck.finish()
 
 
